@@ -9,7 +9,7 @@ cd "$V"
 id="$1"; src="$2"; name="$3"
 pkg="$(fam_of "$id")"
 scratch_prepare "$pkg"
-T="/tmp/vscratch-target-repo-$pkg"
+T="/tmp/vscratch-target-repo$TAG-$pkg"
 demo_cmd="$(python3 -c "import json,sys;print(json.load(open('$src/meta.json'))['demo_cmd'])")"
 demo_cmd="$(echo "$demo_cmd" | sed -E 's/^cd [^;&]*[;&]+ *//; s/CARGO_TARGET_DIR=[^ ]+ //g; s/^export [^;&]*[;&]+ *//')"
 res_suite=NA; res_demo_with=NA; res_demo_without=NA
